@@ -32,6 +32,11 @@ impl TreeMap {
     { unimplemented!() }
     #[verifier::external_body]
     pub fn clone(&self) -> (r: TreeMap) ensures r.m@ == self.m@, { unimplemented!() }
+    /// std map `remove(&key)`: the entry under exactly that key goes, every other entry stays
+    #[verifier::external_body]
+    pub fn remove(&mut self, k: &str) -> (r: Option<Template>)
+        ensures final(self).m@ == old(self).m@.remove(k@), r.is_some() == old(self).m@.contains_key(k@),
+    { unimplemented!() }
     /// `extend` with an owned map: entries of `other` win (right-biased union)
     #[verifier::external_body]
     pub fn extend(&mut self, other: TreeMap)
@@ -51,6 +56,10 @@ impl ScriptMap {
     { unimplemented!() }
     #[verifier::external_body]
     pub fn clone(&self) -> (r: ScriptMap) ensures r.m@ == self.m@, { unimplemented!() }
+    #[verifier::external_body]
+    pub fn remove(&mut self, k: &str) -> (r: Option<String>)
+        ensures final(self).m@ == old(self).m@.remove(k@), r.is_some() == old(self).m@.contains_key(k@),
+    { unimplemented!() }
     #[verifier::external_body]
     pub fn extend(&mut self, other: ScriptMap)
         ensures final(self).m@ == old(self).m@.union_prefer_right(other.m@),
